@@ -210,12 +210,28 @@ impl Entity for HEnt {
     ) -> Pin<Box<dyn futures_core::Stream<Item = Result<Chunk, HErr>> + Send + Sync>> {
         let call = unsafe {
             let c = CALLS;
-            if c < 4 {
-                CALL_LOG[c] = (range.start, range.end);
+            // no symbolic array index
+            if c == 0 {
+                CALL_LOG[0] = (range.start, range.end);
+            } else if c == 1 {
+                CALL_LOG[1] = (range.start, range.end);
+            } else if c == 2 {
+                CALL_LOG[2] = (range.start, range.end);
+            } else if c == 3 {
+                CALL_LOG[3] = (range.start, range.end);
             }
             CALLS += 1;
             c
         };
+        // `-Z restrict-vtable` resolves a `dyn` call only to types it saw being coerced to exactly
+        // that `dyn` type. http-serve stores this stream as `dyn Stream + Send` (it drops the
+        // `Sync` bound), so that coercion is shown to the compiler once, on a value that is
+        // immediately forgotten.
+        {
+            let reg: Pin<Box<dyn futures_core::Stream<Item = Result<Chunk, HErr>> + Send>> =
+                Box::pin(ScriptStream { pos: 0, end: 0, call: K_CALLS, i: K_EV, finished: true });
+            std::mem::forget(reg);
+        }
         Box::pin(ScriptStream { pos: range.start, end: range.end, call, i: 0, finished: false })
     }
     fn add_headers(&self, h: &mut HeaderMap) {
@@ -250,9 +266,13 @@ pub fn stub_now() -> SystemTime {
 // ---------------------------------------------------------------------------------------
 // Draining a body and recording what it did.
 
+pub const FR_NONE: u8 = 0;
 pub const FR_ENT: u8 = 1;
 pub const FR_LIT: u8 = 2;
 pub const FR_STAT: u8 = 3;
+pub const FR_ERR: u8 = 4;
+pub const FR_END: u8 = 5;
+pub const FR_PENDING: u8 = 6;
 
 #[derive(Clone, Copy)]
 pub struct Frame {
@@ -261,10 +281,15 @@ pub struct Frame {
     pub b: u64, // Ent: len
 }
 
-pub const MAX_FRAMES: usize = 8;
+pub const MAX_POLLS: usize = 12;
 
+/// What each poll of a drain returned, indexed by the poll number (a constant after loop
+/// unrolling: no symbolic array indices), plus running totals and the C12/C20 monitors.
 pub struct Drain {
-    pub frames: [Frame; MAX_FRAMES],
+    pub ev: [Frame; MAX_POLLS],
+    pub lit: [Option<Vec<u8>>; MAX_POLLS],
+    pub stat: [Option<&'static [u8]>; MAX_POLLS],
+    pub polls: usize,
     pub nframes: usize,
     pub total: u64,
     pub overflow_total: bool,
@@ -275,16 +300,15 @@ pub struct Drain {
     pub err_after_terminal: bool,
     pub hint_violations: u32,
     pub eos_violations: u32,
-    /// Literal (Lit) frames, kept for content checks.
-    pub lits: [Option<Vec<u8>>; 4],
-    pub nlits: usize,
-    pub stat_ptrs: [Option<&'static [u8]>; 2],
 }
 
 impl Drain {
     pub fn new() -> Drain {
         Drain {
-            frames: [Frame { kind: 0, a: 0, b: 0 }; MAX_FRAMES],
+            ev: [Frame { kind: FR_NONE, a: 0, b: 0 }; MAX_POLLS],
+            lit: [const { None }; MAX_POLLS],
+            stat: [None; MAX_POLLS],
+            polls: 0,
             nframes: 0,
             total: 0,
             overflow_total: false,
@@ -295,9 +319,6 @@ impl Drain {
             err_after_terminal: false,
             hint_violations: 0,
             eos_violations: 0,
-            lits: [None, None, None, None],
-            nlits: 0,
-            stat_ptrs: [None, None],
         }
     }
     pub fn terminal(&self) -> bool {
@@ -309,11 +330,10 @@ pub fn noop_cx() -> Context<'static> {
     Context::from_waker(std::task::Waker::noop())
 }
 
-/// Polls `body` up to `polls` times; after the first terminal event, keeps polling (the
-/// remaining budget) to check that the body stays terminated (C20).
+/// Polls `body` `polls` times (`polls` <= MAX_POLLS, a constant at every call site); after the
+/// first terminal event it keeps polling to check that the body stays terminated (C20).
 /// Before every poll it samples size_hint()/is_end_stream() for the C12 monitor:
-///   * exact hint must equal announced - delivered so far (checked by the caller via
-///     `expect_exact`: Some(announced)),
+///   * exact hint must equal announced - delivered so far (`expect_exact`: Some(announced)),
 ///   * is_end_stream() => no later data and no later error.
 pub fn drain(
     body: &mut Pin<&mut crate::body::Body<Chunk, HErr>>,
@@ -323,6 +343,7 @@ pub fn drain(
 ) {
     let mut cx = noop_cx();
     let mut said_eos = false;
+    d.polls = polls;
     let mut k = 0;
     while k < polls {
         // C12 monitor
@@ -354,31 +375,19 @@ pub fn drain(
                             Some(t) => d.total = t,
                             None => d.overflow_total = true,
                         }
-                        if d.nframes < MAX_FRAMES {
-                            d.frames[d.nframes] = match &c {
-                                Chunk::Ent { start, len } => Frame { kind: FR_ENT, a: *start, b: *len },
-                                Chunk::Lit(v) => Frame { kind: FR_LIT, a: v.len() as u64, b: 0 },
-                                Chunk::Stat(s) => Frame { kind: FR_STAT, a: s.len() as u64, b: 0 },
-                            };
-                            d.nframes += 1;
-                        }
+                        d.nframes += 1;
                         match c {
+                            Chunk::Ent { start, len } => {
+                                d.ev[k] = Frame { kind: FR_ENT, a: start, b: len };
+                            }
                             Chunk::Lit(v) => {
-                                if d.nlits < 4 {
-                                    d.lits[d.nlits] = Some(v);
-                                    d.nlits += 1;
-                                } else {
-                                    std::mem::forget(v);
-                                }
+                                d.ev[k] = Frame { kind: FR_LIT, a: v.len() as u64, b: 0 };
+                                d.lit[k] = Some(v);
                             }
                             Chunk::Stat(s) => {
-                                if d.stat_ptrs[0].is_none() {
-                                    d.stat_ptrs[0] = Some(s);
-                                } else {
-                                    d.stat_ptrs[1] = Some(s);
-                                }
+                                d.ev[k] = Frame { kind: FR_STAT, a: s.len() as u64, b: 0 };
+                                d.stat[k] = Some(s);
                             }
-                            Chunk::Ent { .. } => {}
                         }
                     }
                     Err(_) => {}
@@ -393,12 +402,15 @@ pub fn drain(
                     d.eos_violations += 1;
                 }
                 d.errored = true;
+                d.ev[k].kind = FR_ERR;
             }
             Poll::Ready(None) => {
                 d.ended = true;
+                d.ev[k].kind = FR_END;
             }
             Poll::Pending => {
                 d.pendings += 1;
+                d.ev[k].kind = FR_PENDING;
             }
         }
         k += 1;
@@ -432,43 +444,32 @@ pub struct Snap<'a> {
 }
 
 pub fn snap(h: &HeaderMap) -> Snap<'_> {
-    let names: [u16; S_N] = [
-        header::ACCEPT_RANGES.model_idx(),
-        header::ETAG.model_idx(),
-        header::DATE.model_idx(),
-        header::LAST_MODIFIED.model_idx(),
-        header::CONTENT_LENGTH.model_idx(),
-        header::CONTENT_RANGE.model_idx(),
-        header::CONTENT_TYPE.model_idx(),
-        header::CONTENT_LANGUAGE.model_idx(),
-        header::ALLOW.model_idx(),
-        header::VARY.model_idx(),
-        header::CONTENT_ENCODING.model_idx(),
-    ];
-    let mut s = Snap { count: [0; S_N], val: [None; S_N], others: 0, total: 0 };
-    let mut i = 0;
-    while i < http::header::MODEL_CAP {
-        if let Some((k, v)) = h.model_slot(i) {
-            s.total += 1;
-            let idx = k.model_idx();
-            let mut hit = false;
-            let mut j = 0;
-            while j < S_N {
-                if idx == names[j] {
-                    hit = true;
-                    s.count[j] += 1;
-                    if s.val[j].is_none() {
-                        s.val[j] = Some(v.as_bytes());
-                    }
-                }
-                j += 1;
-            }
-            if !hit {
-                s.others += 1;
-            }
-        }
-        i += 1;
+    // the model map stores each name in its own slot: every lookup is a constant-index access
+    let mut s = Snap { count: [0; S_N], val: [None; S_N], others: 0, total: h.len() as u8 };
+    macro_rules! take {
+        ($i:expr, $name:expr) => {
+            s.count[$i] = h.model_count($name) as u8;
+            s.val[$i] = h.get($name).map(|v| v.as_bytes());
+        };
     }
+    take!(S_ACCEPT_RANGES, header::ACCEPT_RANGES);
+    take!(S_ETAG, header::ETAG);
+    take!(S_DATE, header::DATE);
+    take!(S_LAST_MODIFIED, header::LAST_MODIFIED);
+    take!(S_CONTENT_LENGTH, header::CONTENT_LENGTH);
+    take!(S_CONTENT_RANGE, header::CONTENT_RANGE);
+    take!(S_CONTENT_TYPE, header::CONTENT_TYPE);
+    take!(S_CONTENT_LANGUAGE, header::CONTENT_LANGUAGE);
+    take!(S_ALLOW, header::ALLOW);
+    take!(S_VARY, header::VARY);
+    take!(S_CONTENT_ENCODING, header::CONTENT_ENCODING);
+    let mut known = 0u8;
+    let mut j = 0;
+    while j < S_N {
+        known += s.count[j];
+        j += 1;
+    }
+    s.others = s.total - known;
     s
 }
 
@@ -551,47 +552,105 @@ pub fn take_lit(b: &[u8], i: &mut usize, lit: &[u8]) -> bool {
     true
 }
 
+// ---------------------------------------------------------------------------------------
+// Numeral model. Rendering a fully symbolic u64 in decimal and reading it back is hard for
+// the SAT back end (chains of division by ten) and makes every header value a buffer of
+// symbolic length. In the serve-level harnesses `<u64 as Display>::fmt` -- std's code, not
+// http-serve's -- is therefore stubbed by a fixed-width rendering: `#` followed by 16
+// characters `a`..`p`, one per nibble. Format strings, argument order and every length
+// computation of http-serve remain the real code; only the glyphs of a number change.
+// (Real decimal rendering through the same format strings is checked in fmt_decimal_*.)
+
+pub const TOK: usize = 17;
+
+pub fn num_token(x: u64) -> [u8; TOK] {
+    let mut out = [b'#'; TOK];
+    let mut o = 0;
+    while o < 4 {
+        let mut q = 0;
+        while q < 4 {
+            let i = o * 4 + q;
+            out[1 + i] = b'a' + ((x >> (60 - 4 * i)) & 0xf) as u8;
+            q += 1;
+        }
+        o += 1;
+    }
+    out
+}
+
+/// Stub for `<u64 as core::fmt::Display>::fmt`.
+pub fn stub_u64_display(x: &u64, f: &mut std::fmt::Formatter<'_>) -> std::fmt::Result {
+    let t = num_token(*x);
+    f.write_str(unsafe { std::str::from_utf8_unchecked(&t) })
+}
+
+/// Reads a numeral token at the constant offset `at`.
+pub fn token_at(b: &[u8], at: usize) -> Option<u64> {
+    if at + TOK > b.len() || b[at] != b'#' {
+        return None;
+    }
+    let mut v: u64 = 0;
+    let mut o = 0;
+    while o < 4 {
+        let mut q = 0;
+        while q < 4 {
+            let c = b[at + 1 + o * 4 + q];
+            if c < b'a' || c > b'p' {
+                return None;
+            }
+            v = (v << 4) | (c - b'a') as u64;
+            q += 1;
+        }
+        o += 1;
+    }
+    Some(v)
+}
+
+/// literal `lit` (<= 8 bytes) at constant offset `at`
+pub fn lit_at(b: &[u8], at: usize, lit: &[u8]) -> bool {
+    if at + lit.len() > b.len() {
+        return false;
+    }
+    let mut k = 0;
+    while k < lit.len() {
+        if b[at + k] != lit[k] {
+            return false;
+        }
+        k += 1;
+    }
+    true
+}
+
 /// `bytes a-b/T` -> (a, b, T)
 pub fn parse_content_range(b: &[u8]) -> Option<(u64, u64, u64)> {
-    let mut i = 0;
-    if !take_lit(b, &mut i, b"bytes ") {
+    if b.len() != 6 + 3 * TOK + 2 || !lit_at(b, 0, b"bytes ") {
         return None;
     }
-    let a = take_decimal(b, &mut i)?;
-    if !take_lit(b, &mut i, b"-") {
+    let a = token_at(b, 6)?;
+    if b[6 + TOK] != b'-' {
         return None;
     }
-    let e = take_decimal(b, &mut i)?;
-    if !take_lit(b, &mut i, b"/") {
+    let e = token_at(b, 6 + TOK + 1)?;
+    if b[6 + 2 * TOK + 1] != b'/' {
         return None;
     }
-    let t = take_decimal(b, &mut i)?;
-    if i != b.len() {
-        return None;
-    }
+    let t = token_at(b, 6 + 2 * TOK + 2)?;
     Some((a, e, t))
 }
 
 /// `bytes */T` -> T
 pub fn parse_unsat_content_range(b: &[u8]) -> Option<u64> {
-    let mut i = 0;
-    if !take_lit(b, &mut i, b"bytes */") {
+    if b.len() != 8 + TOK || !lit_at(b, 0, b"bytes */") {
         return None;
     }
-    let t = take_decimal(b, &mut i)?;
-    if i != b.len() {
-        return None;
-    }
-    Some(t)
+    token_at(b, 8)
 }
 
 pub fn parse_whole_decimal(b: &[u8]) -> Option<u64> {
-    let mut i = 0;
-    let v = take_decimal(b, &mut i)?;
-    if i != b.len() {
+    if b.len() != TOK {
         return None;
     }
-    Some(v)
+    token_at(b, 0)
 }
 
 /// Resets all harness statics (each harness starts from them anyway; explicit for clarity).
